@@ -29,7 +29,7 @@ CHECKS = {
         "cosched",
         "stateless exhaustive schedule exploration of the real runtime with iterative "
         "deviation bounding",
-        "Each of ~680 scenarios (flavour x failure kind incl. falsy returns and BaseExceptions "
+        "Each of ~700 scenarios (flavour x failure kind incl. falsy returns, unprintable values and BaseExceptions "
         "x registration path x failure instant x bystanders x double failures) is run on the "
         "unmodified ServiceRunner/MetaRunner/runners under every schedule with at most 1 "
         "(quick) / 2 (thorough) deviations from the default schedule (preemptions at "
@@ -257,8 +257,8 @@ CHECKS = {
         "explicit-state BFS over operation histories of the real FactoryPool, each adjustment "
         "one iteration of the real run() under trio's virtual clock; seeded walks as a "
         "separately reported supplement",
-        "52 scenarios (13 initial child sets x 4 factories of children with varying initial "
-        "demand) x all histories to depth 5 (quick) / 7 (thorough) of demand writes, child "
+        "54 scenarios (13 initial child sets x 4 factories of children with varying initial "
+        "demand, plus two with demands of the order 10**9) x all histories to depth 5 (quick) / 7 (thorough) of demand writes, child "
         "supply / utilisation changes, children disabling themselves, dropped references to "
         "released children and adjustment cycles (the real run() loop body, exactly once, under "
         "MockClock); states deduplicated by the fields the implementation reads. Oracle after "
